@@ -10,6 +10,7 @@
 //! trusted: env: PaymentConstraints {2 fields} skeleton; BlindedHopFeatures opaque with external_body empty()/requires_unknown_bits_from() (unconstrained)
 //! trusted: env: struct UpdateAddHTLC{amount_msat,cltv_expiry}, ChannelConfig{3 fields}, PaymentRelay{3 fields} are field skeletons of the real structs; enum LocalHTLCFailureReason restricted to the 6 variants used; FundedChannel/ChannelContext self skeleton (R5) whose config()/prev_config() accessors are external_body returning the two stored configs
 //! trusted: R15 (deep slice): can_forward_htlc_to_outgoing_channel: the unit extracts its last two statements (minimum-amount test and the call of htlc_satisfies_config, which is checked against that function's proved contract) verbatim; the privacy / liveness pre-checks before them (all early Err returns) are dropped and not claimed; NextPacketDetails skeleton
+//! trusted: R15 (deep slice): can_forward_htlc_should_intercept: the arm taken when no channel is known under the outgoing id, and the expiry test behind the match, verbatim (the fake-scid tests are uninterpreted predicates of the id; the real check_incoming_htlc_cltv extracted in this unit is the callee)
 //! trusted: R15 (deep slice): process_forward_htlcs: the first three argument expressions of its queue_add_htlc call, verbatim, as a function of the three values destructured from the pending forward
 //! trusted: R15 (deep slice): claim_funds_internal: the expression computing total_fee_earned_msat inside the PaymentForwarded closure, verbatim
 //! trusted: R15 (deep slice): do_chain_event sweeps pending_intercepted_htlcs with a retain closure under a mutex; the unit extracts the closure's keep/fail-back test verbatim as a function of (htlc, height); the pushed failure and the log are dropped; PendingAddHTLCInfo/PendingHTLCInfo skeletons {outgoing_cltv_value}
@@ -34,7 +35,7 @@ pub assume_specification<T, E, F, O: FnOnce(E) -> Result<T, F>>[core::result::Re
 //@const lightning/src/chain/channelmonitor.rs MAX_BLOCKS_FOR_CONF CLTV_CLAIM_BUFFER LATENCY_GRACE_PERIOD_BLOCKS ANTI_REORG_DELAY HTLC_FAIL_BACK_BUFFER
 //@const lightning/src/ln/channelmanager.rs MIN_CLTV_EXPIRY_DELTA CLTV_FAR_FAR_AWAY MIN_FINAL_CLTV_EXPIRY_DELTA
 
-pub enum LocalHTLCFailureReason { FeeInsufficient, IncorrectCLTVExpiry, CLTVExpiryTooSoon, CLTVExpiryTooFar, OutgoingCLTVTooSoon, AmountBelowMinimum }
+pub enum LocalHTLCFailureReason { FeeInsufficient, IncorrectCLTVExpiry, CLTVExpiryTooSoon, CLTVExpiryTooFar, OutgoingCLTVTooSoon, AmountBelowMinimum, UnknownNextPeer }
 pub struct UpdateAddHTLC { pub amount_msat: u64, pub cltv_expiry: u32 }
 #[derive(Clone, Copy)]
 pub struct ChannelConfig { pub forwarding_fee_proportional_millionths: u32, pub forwarding_fee_base_msat: u32, pub cltv_expiry_delta: u16 }
@@ -149,6 +150,46 @@ pub struct NextPacketDetails { pub outgoing_amt_msat: u64, pub outgoing_cltv_val
     cltv_expiry < cur_height + HTLC_FAIL_BACK_BUFFER as u32
 //@end
 
+// ---- a forward to a channel we do NOT have (to be intercepted, or a phantom hop): the arm of can_forward_htlc_should_intercept that stands in for the per-channel policy, and the expiry test every forward goes through (deep R15 slice) ----
+pub struct Mgr { pub id: u64 }
+pub uninterp spec fn phantom_scid(m: Mgr, scid: u64) -> bool;
+pub uninterp spec fn intercept_unknown(m: Mgr, scid: u64) -> bool;
+pub mod fake_scid { #[allow(unused_imports)] use super::*; use vstd::prelude::*;
+    #[verifier::external_body] pub fn is_valid_phantom(m: &Mgr, scid: u64, h: &Mgr) -> (r: bool) ensures r == phantom_scid(*m, scid) { unimplemented!() } }
+impl Mgr {
+    #[verifier::external_body] pub fn forward_needs_intercept_to_unknown_chan(&self, scid: u64) -> (r: bool) ensures r == intercept_unknown(*self, scid) { unimplemented!() }
+//@extract lightning/src/ln/channelmanager.rs :: impl ChannelManager :: fn can_forward_htlc_should_intercept
+//@strip msgs
+//@slice R15
+    Some(Err(e)) => return Err(e), None => { $arm:any }, }; check_incoming_htlc_cltv( $args:any )?; Ok(intercept)
+//@with
+    fn admit_a_forward_to_a_channel_we_do_not_have(&self, msg: &UpdateAddHTLC, next_hop: &NextPacketDetails, outgoing_scid: u64, cur_height: u32) -> Result<bool, LocalHTLCFailureReason> {
+        let intercept = { $arm };
+        check_incoming_htlc_cltv( $args )?; Ok(intercept) }
+//@rw R5 ?
+    &self.fake_scid_rand_bytes, outgoing_scid, &self.chain_hash,
+//@with
+    self, outgoing_scid, self,
+//@ret r
+//@requires
+    cur_height <= 0x7fff_ffff,
+//@ensures P C02,C08 a-forward-to-a-channel-we-do-not-have-is-admitted-only-for-a-phantom-or-interceptable-id-never-offering-more-than-arrived-with-at-least-the-minimum-cltv-delta-and-inside-the-expiry-window
+    r is Ok ==> next_hop.outgoing_amt_msat <= msg.amount_msat
+        && msg.cltv_expiry as int >= next_hop.outgoing_cltv_value + MIN_CLTV_EXPIRY_DELTA
+        && msg.cltv_expiry as int > cur_height + HTLC_FAIL_BACK_BUFFER && msg.cltv_expiry as int <= cur_height + CLTV_FAR_FAR_AWAY
+        && next_hop.outgoing_cltv_value as int > cur_height + LATENCY_GRACE_PERIOD_BLOCKS
+        && (phantom_scid(*self, outgoing_scid) || intercept_unknown(*self, outgoing_scid))
+        && r->Ok_0 == !phantom_scid(*self, outgoing_scid),
+//@mutant forward_to_an_unknown_channel_may_offer_more_than_arrived
+    if next_hop.outgoing_amt_msat > msg.amount_msat { return Err(LocalHTLCFailureReason::FeeInsufficient); }
+//@with
+
+//@mutant forward_to_an_id_that_is_neither_phantom_nor_interceptable_admitted
+    } else { return Err(LocalHTLCFailureReason::UnknownNextPeer); }
+//@with
+    } else { true }
+//@end
+}
 // (P, C08) the end-to-end race is won for every height / expiry, given the acceptance postcondition
 pub proof fn lemma_forward_race(h: int, incoming: int, outgoing: int, delta: int)
     requires delta >= MIN_CLTV_EXPIRY_DELTA, incoming >= outgoing + delta
